@@ -15,7 +15,7 @@ C03 — property theorems (DESIGN.md §4 C03) over the model `Model/C03.lean`.
   4. `runtime_le_max` — the hypothesis `RuntimeOK` (runtime ≤ max) follows from C02 `runtime_bounds`.
   5. `closed_loop_inv` (+ `used_never_above_max_interleaved`, `np_used_never_above_min_interleaved`) — the
      interleaved form: informer events between the admitting PreFilter and its Reserve;
-     `interleaved_reparent_counterexample` — the one interleaving that breaks it.
+     `interleaved_reparent_counterexample`, `interleaved_arrival_counterexample` — the interleavings that break it.
 -/
 namespace KoordVerif.C03
 
@@ -610,8 +610,9 @@ The full statement — arbitrary informer events (unreserve / delete / add of an
 refreshes, stale attempts) *between* the admitting PreFilter and its Reserve — is `closed_loop_inv` in §5 below; it
 carries "the admitted pod still fits" (`Fits`) through every other event.  What stays outside: a quota update that
 registers a group, resets the tree or re-parents a group while an admission is open drops that admission
-(`dropsPending`); for a re-parented group on the admitted pod's path this is necessary
-(`interleaved_reparent_counterexample`), the other two cases are exercised by the harness oracle only.
+(`dropsPending`); for a re-parented group on the admitted pod's path, or one whose usage arrives under an ancestor of
+the admitted pod, this is necessary (`interleaved_reparent_counterexample`, `interleaved_arrival_counterexample`);
+resets, registrations and moves that do not touch the path are exercised by the harness oracle only.
 -/
 theorem closed_loop_inv_partial (cp : Bool) : ∀ (evs : List Ev) (s : State), Inv cp s → Valid cp s evs →
     Inv cp (evs.foldl runEv s) := by
@@ -877,8 +878,8 @@ inductive IEv where
   | ext (op : Op)
 
 /-- quota updates after which an open admission is dropped (the pod goes back to the queue): a group appears, is
-    re-parented, or the tree is reset.  For a re-parented group on the admitted pod's path this is necessary
-    (`interleaved_reparent_counterexample`); the others are not covered by the proof. -/
+    re-parented, or the tree is reset.  For a re-parenting that touches the admitted pod's path this is necessary
+    (`interleaved_reparent_counterexample`, `interleaved_arrival_counterexample`); the others are not covered by the proof. -/
 def dropsPending (s : State) : Op → Bool
   | .quotaSet n parent ip l _ _ =>
     match findQ s.quotas n with
@@ -1161,6 +1162,27 @@ theorem interleaved_reparent_counterexample :
       [(0, none, 6), (1, some 10, 0), (2, some 4, 6), (3, some 10, 6)] := by
   decide
 
+
+/-- root ← 1 (is-parent, max 4) ← 2 (max 4); root ← 3 (max 4) with pod 2 (cpu 3) reserved; pod 1 (cpu 2) waits in group 2. -/
+def cx2State : State :=
+  [ Op.quotaSet 1 0 true true (cxMax 4) RL.empty, Op.quotaSet 2 1 false true (cxMax 4) RL.empty,
+    Op.quotaSet 3 0 false true (cxMax 4) RL.empty,
+    Op.podDef 1 2 false (cxMax 2), Op.podAdd 1, Op.podDef 2 3 false (cxMax 3), Op.podAdd 2, Op.reserve 2 ].foldl
+    (fun s op => (step s op).1) (init 1)
+
+/-- group 3 — with its usage 3 — moves below group 1 between the PreFilter and the Reserve of pod 1. -/
+def cx2Moved : State := quotaSet cx2State 3 1 false true (cxMax 4) RL.empty
+
+/-- the second breaking interleaving: the re-parented group is NOT on the admitted pod's path, but its usage arrives
+    under an ancestor of it.  PreFilter admits pod 1 (0 + 2 ≤ 4 on groups 2 and 1); the arrival fits by itself
+    (group 1 shows 3 ≤ 4); the Reserve that follows makes group 1 show 5 > 4. -/
+theorem interleaved_arrival_counterexample :
+    (step cx2State (.attempt 1 ⟨false, true⟩)).2 = some .success ∧
+    (cx2Moved.quotas.map fun g => (g.name, g.parent, g.max 0, g.used 0)) =
+      [(0, 0, none, 3), (1, 0, some 4, 3), (2, 1, some 4, 0), (3, 1, some 4, 3)] ∧
+    ((reserve cx2Moved 1).quotas.map fun g => (g.name, g.max 0, g.used 0)) =
+      [(0, none, 5), (1, some 4, 5), (2, some 4, 2), (3, some 4, 3)] := by
+  decide
 
 /-! #### non-vacuity of §5 and of the meta updates -/
 
